@@ -232,7 +232,88 @@ func runC14(c *Ctx) error {
 			}
 		}
 	}
+	// ---- (c2)
+	if err := parkedBroadcastScenario(c); err != nil {
+		return err
+	}
 	// ---- (d) pooled windows: state and behaviour of every new connection of a long-lived server
 	freshWindowScenario(c, 24)
+	return nil
+}
+
+// parkedBroadcastScenario: a broadcast job that has started but cannot finish (another writer of that connection is
+// parked inside the transport) while the Broadcaster is closed - as documented, after the Broadcast calls returned - and
+// the pool is scribbled over: the frame it finally writes must still be the broadcast message, exactly once.
+func parkedBroadcastScenario(c *Ctx) error {
+	prev := runtime.GOMAXPROCS(1) // sync.Pool hands a recycled buffer back reliably on one P
+	defer runtime.GOMAXPROCS(prev)
+	for _, pmd := range []bool{false, true} {
+		for _, n := range []int{300, 5000} {
+			specA := connSpec{Server: true, PMD: pmd}
+			ca, ta, err := specA.open(&recHandler{})
+			if err != nil {
+				return err
+			}
+			cb, tb, err := specA.open(&recHandler{})
+			if err != nil {
+				return err
+			}
+			gate := make(chan struct{}, 16)
+			entered := make(chan int, 16)
+			ta.mu.Lock()
+			ta.gate, ta.gateEntered = gate, entered
+			ta.mu.Unlock()
+			blockerDone := make(chan error, 1)
+			go func() { blockerDone <- ca.WriteMessage(gws.OpcodeBinary, []byte("blocker")) }()
+			<-entered
+			p := textPayload(c, n, nil)
+			b := gws.NewBroadcaster(gws.OpcodeText, p)
+			_ = b.Broadcast(ca)
+			_ = b.Broadcast(cb)
+			bdone := make(chan struct{})
+			cb.Async(func() { close(bdone) })
+			<-bdone
+			for i := 0; i < 100; i++ {
+				runtime.Gosched()
+			}
+			time.Sleep(5 * time.Millisecond)
+			_ = b.Close()
+			scribble(2)
+			for i := 0; i < 8; i++ {
+				gate <- struct{}{}
+			}
+			<-blockerDone
+			adone := make(chan struct{})
+			ca.Async(func() { close(adone) })
+			select {
+			case <-adone:
+			case <-time.After(5 * time.Second):
+			}
+			tag := fmt.Sprintf("broadcast behind a parked writer pmd=%v len=%d", pmd, n)
+			for who, tp := range map[string]*memConn{"parked": ta, "idle": tb} {
+				fs, rest, perr := parseFrames(tp.written())
+				replay := map[string]any{"tag": tag, "connection": who, "wire_prefix": fmt.Sprintf("%x", head(tp.written(), 64))}
+				if perr != nil || len(rest) != 0 || len(fs) == 0 {
+					c.oracleFail(fmt.Sprintf("wire of the %s connection is not whole frames [%s]", who, tag), "broadcast-wire", replay)
+					continue
+				}
+				last := fs[len(fs)-1]
+				got := last.Payload
+				if last.Rsv1 {
+					if out, err := rfc7692Inflate(got, nil); err == nil {
+						got = out
+					} else {
+						got = nil
+					}
+				}
+				wantFrames := map[string]int{"parked": 2, "idle": 1}[who]
+				if len(fs) != wantFrames || last.Opcode != 1 || !bytes.Equal(got, p) {
+					c.oracleFail(fmt.Sprintf("the %s connection got %d frames, the last one (opcode %d, %d bytes) is not the broadcast message [%s]", who, len(fs), last.Opcode, len(last.Payload), tag),
+						"broadcast-corrupted", replay)
+				}
+			}
+			c.count(tag, true, "kind=broadcast-parked")
+		}
+	}
 	return nil
 }
